@@ -39,7 +39,12 @@ inductive Emit (β : Type) where
   | batch (b : β)
   | reader (bs : List β)
   | finished
-deriving Repr
+deriving Repr, DecidableEq
+
+/-- `DecodeResult::Finished`? -/
+def Emit.isFinished {β} : Emit β → Bool
+  | .finished => true
+  | _ => false
 
 /-- the rows (batches) carried by an emission -/
 def Emit.rows {β} : Emit β → List β
@@ -88,7 +93,7 @@ def idealRun {σ β} (P : Prog σ β) (file : List Nat) (m : Mode) : Nat → σ 
   | n + 1, s, true => Emit.finished :: idealRun P file m n s true
   | n + 1, s, false =>
     let r := idealPoll P file m s
-    r.2 :: idealRun P file m n r.1 (match r.2 with | .finished => true | _ => false)
+    r.2 :: idealRun P file m n r.1 r.2.isFinished
 
 /-! ### Offset / limit budget (`RowBudget`) — the naive statement -/
 
